@@ -142,6 +142,48 @@ def make(client, history, cfg_push):
     return h
 
 
+def h_push_retry():
+    """a push_stream call that is refused (parent already ended by us, or an invalid request
+    header list) uses up nothing: the same promised id on a live parent then succeeds"""
+    def h():
+        with h2h.native():
+            ctx = ops.Ctx(False)
+            ops.run_op(ctx, ('HEADERS', 1, 'req', False))
+            ops.run_op(ctx, ('HEADERS', 3, 'req', False))
+            ops.run_op(ctx, ('send_headers', 1, 'resp', True))
+            ctx.me.data_to_send()
+        me = ctx.me
+        pid = sym_choice('promised', [2, 4, 10])
+        why = sym_choice('refused_because', ['parent-ended', 'invalid-headers', 'no-path'])
+        out0 = models.Out(me)
+        try:
+            if why == 'parent-ended':
+                me.push_stream(1, pid, h2h.REQ)
+            elif why == 'invalid-headers':
+                me.push_stream(3, pid, h2h.RESP)
+            else:
+                me.push_stream(3, pid, [(b':method', b'GET'), (b':scheme', b'https'),
+                                        (b':authority', b'example.com')])
+        except h2.exceptions.ProtocolError:
+            note('refused')
+        else:
+            note('first-accepted')
+            return
+        check(out0.nbytes() == 0, 'refused-push-emits', why)
+        out = models.Out(me)
+        try:
+            me.push_stream(3, pid, h2h.REQ)
+        except h2.exceptions.ProtocolError as e:
+            check(False, 'valid-push-refused:after-refused-push', (why, pid, repr(e)[:80]))
+            return
+        fr = out.frames()
+        check(len(fr) == 1 and isinstance(fr[0], hf.PushPromiseFrame) and
+              fr[0].promised_stream_id == pid, 'push-frame', [h2h.frame_sig(f) for f in fr])
+        check(me.get_next_available_stream_id() == pid + 2, 'next-id-after-push',
+              me.get_next_available_stream_id())
+    return h
+
+
 def hist_has_settings(hist):
     return any(o[0] in ('settings', 'SETTINGS') for o in hist)
 
@@ -205,4 +247,7 @@ def shards(tier, seed):
             else:
                 out.append(Shard('server_recv_pp/%s' % F.hist_name(hist),
                                  h_server_recv_pp(list(hist)), twin=False))
+    out.append(Shard('push_retry/server', h_push_retry(), twin=False, expect=['refused']))
+    from props import c07
+    out.append(Shard('repromise/client', c07.h_repromise(), budget=150, twin=False))
     return out
